@@ -61,7 +61,7 @@ class Models:
     def member_access(self, unit, n, base_text):
         base = unit.kids(n)[0]
         bt = (base.get('type', {}).get('desugaredQualType') or base.get('type', {}).get('qualType', '')).replace('const ', '').replace('struct ', '').replace('*', '').strip()
-        if bt in ('iovec', 'timeval', 'timespec', 'tm', 'timezone', 'epoll_event', 'epoll_data', 'epoll_data_t', 'fd_set', 'sigaction'):
+        if bt in ('iovec', 'timeval', 'timespec', 'tm', 'timezone', 'epoll_event', 'epoll_data', 'epoll_data_t', 'fd_set', 'sigaction', 'sockaddr_in', 'sockaddr'):
             return '%s%s%s' % (base_text, '->' if n.get('isArrow') else '.', n['name'])     # plain C struct of the system headers
         for p in self.plugins:
             r = p.member_access(unit, n, base_text)
@@ -80,7 +80,10 @@ class Models:
             a, b = args
             ct, _ = unit.ctype_node(a)
             if ct.startswith('struct ') and not ct.strip().endswith('*') and not self.is_model_type(ct):
-                raise Unsupported('std::swap of records (in %s)' % unit.cur)      # model containers are plain (pointer, size) structs: swapping the structs is std::swap
+                # a record whose fields are all scalars / pointers is trivially copyable: exchanging the representations IS std::swap
+                rec = unit.record_by_cname(ct[len('struct '):].strip()) if hasattr(unit, 'record_by_cname') else None
+                plain = rec is not None and all(not unit.decl_text(f, f['name'])[0].startswith('struct ') or '*' in unit.decl_text(f, f['name'])[0] for f in unit.record_fields(rec) if f.get('name'))
+                if not plain: raise Unsupported('std::swap of records (in %s)' % unit.cur)      # model containers are plain (pointer, size) structs: swapping the structs is std::swap
             return 'V_SWAP(%s, %s, %s)' % (ct, unit.expr(a), unit.expr(b))
         if name in ('min', 'max') and len(args) == 2:
             self.used.add('std::' + name)
